@@ -43,6 +43,27 @@ def role_of(path):
     return None
 
 
+META_ID = 11
+
+
+def file_id(name):
+    """Model file id of an archive name: a.warc[.gz] -> 0, a-0000N -> N + 1, a-meta -> 11."""
+    b = os.path.basename(str(name))
+    if b.endswith('-wpullinc'):
+        b = b[:-len('-wpullinc')]
+    stem = b.split('.warc')[0]
+    if stem == 'a':
+        return 0
+    if stem == 'a-meta':
+        return META_ID
+    if stem.startswith('a-') and stem[2:].isdigit():
+        n = int(stem[2:])
+        if n + 1 >= META_ID:
+            raise RuntimeError('scenario uses too many numbered files: ' + b)
+        return n + 1
+    raise RuntimeError('unexpected archive name ' + b)
+
+
 def op_class(name):
     if name in ('j.open', 'j.write', 'j.close'):
         return 'journal'
@@ -282,7 +303,8 @@ class RevisitTable(object):
 # ------------------------------------------------------------------------------------------- run
 class Exec(object):
     """One scenario execution (possibly several recorder processes one after the other) in one directory."""
-    def __init__(self, scn, base=None, fault_at=None, crash_at=None, keep_raw_at=(), quiet_ops=False):
+    def __init__(self, scn, base=None, fault_at=None, crash_at=None, keep_raw_at=(), quiet_ops=False,
+                 log_from_append=None):
         self.scn = scn
         self.base = base or tempfile.mkdtemp(prefix='ww_')
         self.own_base = base is None
@@ -297,10 +319,12 @@ class Exec(object):
         self.keep_raw_at = set(keep_raw_at)
         self.raw_at = {}
         self.quiet_ops = quiet_ops
+        self.log_from_append = log_from_append
+        self.muted = log_from_append is not None   # nothing is recorded before that write_record call
         self.ev = []
         self.ops = []            # (idx, name, append index or -1)
-        self.files = {}          # relative name -> file index (1-based, first appearance)
         self.last = {}           # file index -> (bytes, journal bytes)
+        self.maxseen = {}
         self.cids = {}
         self.rids = {}
         self.strs = {}
@@ -321,9 +345,11 @@ class Exec(object):
 
     # ---- directory scan + lite projection
     def scan(self):
-        """-> {relname: (bytes, journal bytes or None)} for archives, plus '.cdx' entries (bytes, None)."""
+        """-> {name: (bytes, journal bytes or None)} for archives (keyed by base name; a file that was moved to the
+        move_to directory keeps its identity, its journal - which never moves - stays attached), plus the CDX file."""
         out = {}
-        for tag, d in (('', self.wdir), ('moved/', self.mdir)):
+        journals = {}
+        for tag, d in (('moved/', self.mdir), ('', self.wdir)):
             try:
                 names = sorted(os.listdir(d))
             except FileNotFoundError:
@@ -333,16 +359,12 @@ class Exec(object):
                 role = role_of(nm)
                 if role in ('a', 'c'):
                     with _builtin_open(p, 'rb') as fh:
-                        data = fh.read()
-                    jb = None
-                    if role == 'a' and os.path.exists(p + '-wpullinc'):
-                        with _builtin_open(p + '-wpullinc', 'rb') as fh:
-                            jb = fh.read()
-                    out[tag + nm] = (data, jb)
+                        out[nm] = (fh.read(), None)
                 elif role == 'j':
-                    if not os.path.exists(p[:-len('-wpullinc')]):
-                        with _builtin_open(p, 'rb') as fh:
-                            out[tag + nm[:-len('-wpullinc')]] = (b'', fh.read())
+                    with _builtin_open(p, 'rb') as fh:
+                        journals[nm[:-len('-wpullinc')]] = fh.read()
+        for nm, jb in journals.items():
+            out[nm] = (out.get(nm, (b'', None))[0], jb)
         return out
 
     def lite(self, name, data):
@@ -362,33 +384,34 @@ class Exec(object):
         """Changed files since the last snapshot, in the encoding of the trace events."""
         cur = self.scan()
         ch = []
+        seen = set()
         for name in sorted(cur):
             if role_of(name) != 'a':
                 continue
-            if name not in self.files:
-                self.files[name] = len(self.files) + 1
-            fi = self.files[name]
+            fi = file_id(name)
+            seen.add(fi)
             if self.last.get(fi) == cur[name]:
                 continue
             self.last[fi] = cur[name]
             data, jb = cur[name]
             jst, jn = rd.read_journal(jb)
-            ch.append({'f': fi, 'j': jst, 'jn': jn, 'sz': len(data), 'm': self.lite(name, data)})
-        for name, fi in self.files.items():
-            if name not in cur and self.last.get(fi) not in (None, (b'', None)):
-                self.last[fi] = (b'', None)
-                ch.append({'f': fi, 'j': 'absent', 'jn': 0, 'sz': 0, 'm': []})
+            self.maxseen[fi] = max(self.maxseen.get(fi, 0), len(data))
+            ch.append({'f': fi, 'x': True, 'j': jst, 'jn': jn, 'sz': len(data), 'm': self.lite(name, data)})
+        for fi in list(self.last):
+            if fi not in seen and self.last[fi] is not None:
+                self.last[fi] = None
+                ch.append({'f': fi, 'x': False, 'j': 'absent', 'jn': 0, 'sz': 0, 'm': []})
         return ch, cur
 
     # ---- hooks
     def on_op(self, idx, name, path, inj):
         self.ops.append((idx, name, self.append_no if self.in_append else -1))
-        if self.quiet_ops:
+        if self.quiet_ops or self.muted:
             return
         ch, cur = self.delta()
         if idx in self.keep_raw_at:
             self.raw_at[idx] = cur
-        cf = self.files.get(self._rel(path), 0) if role_of(path) in ('a', 'j') else 0
+        cf = file_id(path) if role_of(path) in ('a', 'j') else 0
         self.ev.append({'e': 'op', 'op': name, 'cls': op_class(name), 'fi': cf, 'inj': bool(inj), 'k': idx, 'ch': ch})
 
     def _rel(self, path):
@@ -399,7 +422,7 @@ class Exec(object):
         return ('moved/' if os.path.dirname(p) == self.mdir else '') + b
 
     def mark(self, e, **kw):
-        if self.quiet_ops:
+        if self.quiet_ops or self.muted:
             return
         ch, _ = self.delta()
         d = {'e': e, 'ch': ch}
@@ -426,20 +449,27 @@ class Exec(object):
             def write_record(self, record):
                 ex.append_no += 1
                 ex.in_append = True
-                rel = ex._rel(self._warc_filename)
-                if rel not in ex.files:
-                    ex.files[rel] = len(ex.files) + 1
-                ex.mark('abegin', ty=str(record.fields.get('WARC-Type', '')), fi=ex.files[rel], a=ex.append_no)
+                if ex.muted and ex.append_no == ex.log_from_append:
+                    ex.muted = False
+                fi = file_id(self._warc_filename)
+                ex.mark('abegin', ty=str(record.fields.get('WARC-Type', '')), fi=fi, a=ex.append_no, len=0)
+                ab = len(ex.ev) - 1
+                size0 = len((ex.last.get(fi) or (b'', None))[0])
+                ex.maxseen[fi] = size0
                 try:
                     R.WARCRecorder.write_record(self, record)
                 except BaseException as err:
                     ex.in_append = False
                     inj = ex.fs.injected
-                    ex.mark('aend', ok=False, cls=op_class(inj) if inj else 'none', fi=ex.files[rel],
+                    ex.mark('aend', ok=False, cls=op_class(inj) if inj else 'none', fi=fi,
                             err=type(err).__name__)
+                    if not ex.quiet_ops and ab >= 0 and ex.ev[ab]['e'] == 'abegin':
+                        ex.ev[ab]['len'] = max(ex.maxseen.get(fi, size0) - size0, 0)
                     raise
                 ex.in_append = False
-                ex.mark('aend', ok=True, cls='none', fi=ex.files[rel], err='')
+                ex.mark('aend', ok=True, cls='none', fi=fi, err='')
+                if not ex.quiet_ops and ab >= 0 and ex.ev[ab]['e'] == 'abegin':
+                    ex.ev[ab]['len'] = len((ex.last.get(fi) or (b'', None))[0]) - size0
 
         return Traced(self.prefix, params=params)
 
@@ -604,9 +634,12 @@ class Exec(object):
                 idx += len(run['ex'])
                 self.outcomes.append(how)
                 self.injected = self.fs.injected
-                if not self.quiet_ops:
-                    self.ev.append({'e': 'end', 'how': how, 'run': rn, 'ch': [],
-                                    'full': self.full_projection() if full else None})
+                if not self.quiet_ops and not self.muted:
+                    ch, _ = self.delta()
+                    clean = self.fs.injected is None
+                    self.ev.append({'e': 'end', 'how': how, 'run': rn, 'ch': ch, 'hasfull': bool(full and clean),
+                                    'full': self.full_projection() if (full and clean) else
+                                    {'files': [], 'cdx': [], 'cdxon': False, 'cdxhdr': True}})
                 if how != 'closed':
                     break
         finally:
@@ -618,25 +651,27 @@ class Exec(object):
         cur = self.scan()
         files = []
         cdx = []
+        cdxon = False
+        cdxhdr = True
         names = {}
-        for name in sorted(cur):
+        for name in cur:
             if role_of(name) == 'a':
-                if name not in self.files:
-                    self.files[name] = len(self.files) + 1
-                names[os.path.basename(name)] = self.files[name]
-        for name in sorted(cur, key=lambda n: self.files.get(n, 0)):
+                names[os.path.basename(name)] = file_id(name)
+        for name in sorted(cur):
             data, jb = cur[name]
             if role_of(name) == 'c':
+                cdxon = True
                 hok, lines = rd.read_cdx(data)
+                cdxhdr = bool(hok)
                 for ln in lines:
                     if not ln['wellformed']:
-                        cdx.append({'wf': False, 'u': 0, 'r': 0, 'o': 0, 'l': 0, 'g': 0, 'st': -1, 'mi': 0, 'dg': 0})
+                        cdx.append({'wf': False, 'u': 0, 'r': 0, 'o': 0, 'l': 0, 'g': 99, 'st': 0, 'mi': 0, 'dg': 0})
                         continue
-                    cdx.append({'wf': True, 'u': self._intern(self.strs, ln['url']), 'r': self._intern(self.rids, ln['rid']),
-                                'o': ln['off'], 'l': ln['len'], 'g': names.get(ln['file'], 0), 'st': ln['status'],
-                                'mi': self._intern(self.strs, ln['mime'].lower()),
+                    cdx.append({'wf': True, 'u': self._intern(self.strs, ln['url']),
+                                'r': self._intern(self.rids, ln['rid']),
+                                'o': ln['off'], 'l': ln['len'], 'g': names.get(ln['file'], 99),
+                                'st': max(ln['status'], 0), 'mi': self._intern(self.strs, ln['mime'].lower()),
                                 'dg': self._intern(self.strs, ln['digest'])})
-                cdx_header = hok
                 continue
             ms = rd.split_members(data, name.endswith('.gz'))
             out = []
@@ -650,38 +685,33 @@ class Exec(object):
                         't': f['type'] or 'none', 'r': self._intern(self.rids, f['rid']),
                         'w': self._intern(self.rids, f['wid']), 'ct': self._intern(self.rids, f['cto']),
                         'u': self._intern(self.strs, f['url']), 'ver': f['ver'], 'tail': f['tail'], 'he': f['hdrend'],
-                        'nb': f['nbad'], 'nd': f['ndup'], 'cl': f['clen'], 'bl': f['blen'], 'bd': f['bd'], 'pd': f['pd'],
-                        'hl': f['hl'], 'http': f['http'],
+                        'nb': f['nbad'], 'nd': f['ndup'], 'clf': f['clen'] >= 0, 'cl': max(f['clen'], 0),
+                        'bl': f['blen'], 'bd': f['bd'],
+                        'pdp': f['pd'] != -2, 'pdf': f['pd'] >= 0, 'pdk': max(f['pd'], 0),
+                        'hlf': f['hl'] >= 0, 'hl': max(f['hl'], 0), 'http': f['http'],
                         'resp': bool(f['type'] == 'response' and f['http'] and 'response' in f['ctype']),
-                        'st': f['status'], 'mi': self._intern(self.strs, f['mime'].lower()),
+                        'st': max(f['status'], 0), 'mi': self._intern(self.strs, f['mime'].lower()),
                         'dg': self._intern(self.strs, pdtok),
                         # scenario knowledge (wire bytes sent by the scripted server)
-                        'whl': w.get('hl', -1), 'pdw': bool(w) and f['pdv'] == w.get('bd'),
+                        'whl': max(w.get('hl', 0), 0), 'pdw': bool(w) and f['pdv'] == w.get('bd'),
                         'shape': w.get('shape', ''), 'hc': w.get('hdrclass', ''),
                     })
                 else:
                     rec.update({'t': 'none', 'r': 0, 'w': 0, 'ct': 0, 'u': 0, 'ver': False, 'tail': False, 'he': False,
-                                'nb': 0, 'nd': 0, 'cl': -1, 'bl': -1, 'bd': 'none', 'pd': -2, 'hl': -1, 'http': False,
-                                'resp': False, 'st': -1, 'mi': 0, 'dg': 0, 'whl': -1, 'pdw': False, 'shape': '', 'hc': ''})
+                                'nb': 0, 'nd': 0, 'clf': False, 'cl': 0, 'bl': 0, 'bd': 'none', 'pdp': False,
+                                'pdf': False, 'pdk': 0, 'hlf': False, 'hl': 0, 'http': False, 'resp': False, 'st': 0,
+                                'mi': 0, 'dg': 0, 'whl': 0, 'pdw': False, 'shape': '', 'hc': ''})
                 out.append(rec)
-            files.append({'f': self.files[name], 'sz': len(data), 'gz': name.endswith('.gz'), 'm': out,
-                          'name': name})
-        return {'files': files, 'cdx': cdx, 'dash': self._intern(self.strs, '-')}
+            files.append({'f': file_id(name), 'sz': len(data), 'gz': name.endswith('.gz'), 'm': out, 'name': name})
+        return {'files': files, 'cdx': cdx, 'cdxon': cdxon, 'cdxhdr': cdxhdr}
 
     def cleanup(self):
         if self.own_base:
             _shutil.rmtree(self.base, ignore_errors=True)
 
 
-def materialize(raw, base):
-    """Write a raw snapshot ({relname: (bytes, journal bytes)}) into a fresh directory tree under base."""
-    for d in ('w', 'tmp', 'moved'):
-        os.makedirs(os.path.join(base, d), exist_ok=True)
-    for name, (data, jb) in raw.items():
-        p = os.path.join(base, 'moved', name[6:]) if name.startswith('moved/') else os.path.join(base, 'w', name)
-        if not (data == b'' and jb is not None and role_of(name) == 'a' and False):
-            with _builtin_open(p, 'wb') as fh:
-                fh.write(data)
-        if jb is not None:
-            with _builtin_open(p + '-wpullinc', 'wb') as fh:
-                fh.write(jb)
+def project_dir(base):
+    """Lite projection of a directory tree left behind by a (killed) recorder process: an Exec that only reads."""
+    x = Exec({'params': {}, 'runs': []}, base=base)
+    ch, _ = x.delta()
+    return ch
